@@ -529,14 +529,22 @@ pub fn c02(rec: &mut Rec, lm: &Landmarks, rng: &mut Rng, thorough: bool) {
                 _ => rng.below(1000),
             };
         }
-        let sign: i8 = if i % 3 == 0 { -1 } else if i % 3 == 1 { 1 } else { 0 };
+        // "set the sign to a negative number for the duration to be negative": any i8
+        let sign: i8 = match rng.below(8) {
+            0 | 1 => -1,
+            2 | 3 => 1,
+            4 => 0,
+            5 => -(2 + rng.below(127) as i16) as i8,
+            6 => (2 + rng.below(126)) as i8,
+            _ => *rng.pick(&[i8::MIN, -2, 2, i8::MAX]),
+        };
         m.compose(sign, f);
         m.total();
     }
     m.compose(1, [7_000_001, 0, 0, 0, 0, 0, 1]);
     m.compose(-1, [0, 0, 0, 0, 0, 0, 0]);
     // time zone offsets
-    for sign in [-1i8, 0, 1] {
+    for sign in [-1i8, 0, 1, -2, i8::MIN, 2, i8::MAX] {
         for (h, mi) in [(0i64, 0i64), (1, 30), (23, 59), (-5, 0), (5, -30), (100_000, 7), (i64::MAX / 3_600_000_000_000, 0), (2_562_047, 47), (2_562_048, 0)] {
             m.from_tz(sign, h, mi);
             m.total();
